@@ -2,6 +2,7 @@ import vlib
 
 class P(vlib.Prop):
     id = "C13"
+    watch = ("pkg/build/accounts.go", "pkg/build/paths.go", "pkg/build/build_implementation.go", "pkg/passwd/*.go")
     rule = ("accounts stage: hand-picked corners (defaults, colliding names, uid 2^32-1, /dev/null homes, pre-existing homes of each kind, "
             "symlinked/dangling/looping homes, malformed and odd pre-existing passwd/group text, signed/oversized ids), then random account lists over "
             "random trees, on apkfs.NewMemFS() and tarfs.New(), through the real mutateAccounts; "
@@ -11,6 +12,7 @@ class P(vlib.Prop):
     stages = (
         dict(name="accounts", cmd="c13", args=lambda t, s: ["-stage", "accounts"]),
         dict(name="paths", cmd="c13", args=lambda t, s: ["-stage", "paths"]),
+        dict(name="e2e", cmd="c13", args=lambda t, s: ["-stage", "e2e"]),
     )
     assumptions = (
         "path strings are modelled by their non-empty '/'-separated components plus 'absolute' and 'trailing slash' flags; creating a directory entry literally named '.', '..' or '/' is outside the model (the generators never do it)",
